@@ -116,7 +116,8 @@ func c06LiveInc(_ int, which string) string { return "{% include " + which + " %
 // ---- contexts ----
 
 func c06Obj(ci int) *testobj.TestObject {
-	names := []string{`Ann`, `a"b<c&d`, `Zoë é`, `x/y?z=1&w`}
+	// (control bytes: the JSON escaper writes \u00XX for them — distinct ones per context, rendered concurrently)
+	names := []string{"Ann\x01", "a\"b<c&d\x17", "Zoë é\x1e\x0b", "x/y?z=1&w\x02\x1f"}
 	o := &testobj.TestObject{Id: "u" + strconv.Itoa(ci), Name: []byte(names[ci%len(names)]), Status: []int32{7, 3, 7, 0}[ci%4]}
 	f := &testobj.TestFinance{Balance: float64(ci)}
 	for j := 0; j < ci; j++ {
